@@ -156,8 +156,9 @@ theorem rcptPaths_tie : Gen.Smtp.rcptPaths = rcptExits := by rfl
 theorem rcptArgMin_tie : Gen.Smtp.rcptArgMin = some ("<", 4) := by decide
 theorem cmdMinLen_tie : Gen.Smtp.cmdMinLen = some ("<", 4) := by decide
 
-/-- the two regular expressions whose results are parameters of the model (`mailRe`, `parseArgs`) are the
-    ones the harness evaluates: a changed expression is a changed obligation -/
+/-- the two regular expressions `Ibx.Model.MailArgs.mailRe` / `parseArgs` are hand-written recognisers for: a changed
+    expression is a changed obligation (what the recognisers compute is proved in Props.C06Args against Spec.MailArgs; that
+    Go's engine computes the same for these texts is compared on every run by harness/cmd/drive/c06_args.go) -/
 theorem fromRegex_tie : Gen.Smtp.fromRegex =
     some "(?i)^FROM:\\s*<((?:(?:\\\\>|[^>])+|\"[^\"]+\"@[^>])+)?>( ([\\w= ]|=<>)+)?$" := by decide
 theorem argsRegex_tie : Gen.Smtp.argsRegex = some " (\\w+)=(\\w+|<>)" := by decide
